@@ -379,6 +379,9 @@ fn chunks_of(text: &str, cuts: &[usize]) -> Vec<Vec<u8>> {
 }
 
 pub fn run(ctx: &Ctx) {
+    // a foreground command that is stopped and continued from outside is still the current
+    // command: the next line is not read before it has finished
+    crate::checks::c13::stop_continue_slice(ctx, "C18");
     let quick = ctx.quick();
     let nscripts = if quick { 250 } else { 4000 };
     let seed = ctx.seed;
